@@ -30,6 +30,7 @@ type SCase[T any] struct {
 	v  T
 }
 
+//go:norace
 func RecvCase[T any](ch <-chan T) *RCase[T] {
 	c := &RCase[T]{ch: ch}
 	if ch != nil {
@@ -38,6 +39,7 @@ func RecvCase[T any](ch <-chan T) *RCase[T] {
 	return c
 }
 
+//go:norace
 func SendCase[T any](ch chan<- T, v T) *SCase[T] {
 	c := &SCase[T]{ch: ch, v: v}
 	if ch != nil {
@@ -46,11 +48,18 @@ func SendCase[T any](ch chan<- T, v T) *SCase[T] {
 	return c
 }
 
+//go:norace
 func (c *RCase[T]) ptr() uintptr { return c.p }
-func (c *RCase[T]) recv() bool   { return true }
+
+//go:norace
+func (c *RCase[T]) recv() bool { return true }
+
+//go:norace
 func (c *RCase[T]) rcase() reflect.SelectCase {
 	return reflect.SelectCase{Dir: reflect.SelectRecv, Chan: reflect.ValueOf(c.ch)}
 }
+
+//go:norace
 func (c *RCase[T]) set(v reflect.Value, ok bool) {
 	c.Ok = ok
 	if ok {
@@ -70,7 +79,11 @@ func (c *RCase[T]) ready(s *Sched, t *Thread) bool {
 	// unmanaged sender have slipped a value in, keep it.
 	select {
 	case v, ok := <-c.ch:
-		c.V, c.Ok, c.stashed = v, ok, true
+		if ok {
+			c.V, c.Ok, c.stashed = v, ok, true
+		}
+		// closed: nothing is kept — the owning thread receives again itself, so that the
+		// happens-before edge of the close lands on its own goroutine
 		return true
 	default:
 	}
@@ -106,11 +119,18 @@ func (c *RCase[T]) do(s *Sched, t *Thread, idx int) bool {
 	return false
 }
 
+//go:norace
 func (c *SCase[T]) ptr() uintptr { return c.p }
-func (c *SCase[T]) recv() bool   { return false }
+
+//go:norace
+func (c *SCase[T]) recv() bool { return false }
+
+//go:norace
 func (c *SCase[T]) rcase() reflect.SelectCase {
 	return reflect.SelectCase{Dir: reflect.SelectSend, Chan: reflect.ValueOf(c.ch), Send: reflect.ValueOf(c.v)}
 }
+
+//go:norace
 func (c *SCase[T]) set(reflect.Value, bool) {}
 
 //go:norace
@@ -118,7 +138,7 @@ func (c *SCase[T]) ready(s *Sched, t *Thread) bool {
 	if c.ch == nil {
 		return false
 	}
-	if s.closed[c.p] != nil {
+	if s.isClosed(c.p) {
 		return true // proceeds and panics, as in Go
 	}
 	if cap(c.ch) > 0 {
@@ -129,7 +149,7 @@ func (c *SCase[T]) ready(s *Sched, t *Thread) bool {
 
 //go:norace
 func (c *SCase[T]) do(s *Sched, t *Thread, idx int) bool {
-	if s.closed[c.p] != nil {
+	if s.isClosed(c.p) {
 		panic("send on closed channel")
 	}
 	if cap(c.ch) > 0 {
@@ -238,6 +258,7 @@ func Select(hasDefault bool, cases ...Case) int {
 	return i
 }
 
+//go:norace
 func Send[T any](ch chan<- T, v T) {
 	if S == nil {
 		ch <- v
@@ -246,6 +267,7 @@ func Send[T any](ch chan<- T, v T) {
 	Select(false, SendCase(ch, v))
 }
 
+//go:norace
 func Recv[T any](ch <-chan T) T {
 	if S == nil {
 		return <-ch
@@ -255,6 +277,7 @@ func Recv[T any](ch <-chan T) T {
 	return c.V
 }
 
+//go:norace
 func Recv2[T any](ch <-chan T) (T, bool) {
 	if S == nil {
 		v, ok := <-ch
@@ -270,10 +293,10 @@ func Close[T any](ch chan<- T) {
 	if s := S; s != nil {
 		s.point(OpClose, nil, nil)
 		p := reflect.ValueOf(ch).Pointer()
-		if s.closed[p] != nil {
+		if s.isClosed(p) {
 			panic("close of closed channel")
 		}
-		s.closed[p] = ch
+		s.closed = append(s.closed, closedChan{p, ch})
 	}
 	close(ch)
 }
